@@ -115,24 +115,33 @@ def _finding(law, kind_exp_obs, what):
     return {"law": law, "field_kind": k, "expected": e, "observed": o, "what": what}
 
 
-def ref_eval(tree, ow, strict):
+def ref_eval(tree, ow, strict, ncls):
     """Reference value of a parenthesised merge, e.g. (x, (y, z))."""
     if isinstance(tree, dict):
         return tree
     a, b = tree
-    return M.ref_merge(ref_eval(a, ow, strict), ref_eval(b, ow, strict), ow, equal_is_conflict=strict)
+    return M.ref_merge(ref_eval(a, ow, strict, ncls), ref_eval(b, ow, strict, ncls), ow, strict, ncls)
 
 
-def ref_accepted(tree, ow):
+def ref_accepted(tree, ow, got=None):
+    """Acceptable outcomes [("ok", canon, spec) | ("err", None, conflict path)], documented reading first.
+
+    Two points are left open by the property and accepted either way (see c14_model.ref_merge and the
+    driver's assumptions): an EQUAL scalar provided twice (raise / keep) and the class of a merged
+    nested value (left / more specific; matters only for unrelated sibling classes).
+    """
     outs = []
-    for strict in (True, False):
-        try:
-            acc = ref_eval(tree, ow, strict)
-            o = ("ok", M.canon(M.plain(acc)), acc)
-        except M.Conflict as c:
-            o = ("err", None, c.args[0])
-        if not any(_same(o, p) for p in outs):
-            outs.append(o)
+    for ncls in ("left", "specific"):
+        for strict in (True, False):
+            try:
+                acc = ref_eval(tree, ow, strict, ncls)
+                o = ("ok", M.canon(M.plain(acc)), acc)
+            except M.Conflict as c:
+                o = ("err", None, c.args[0])
+            if got is not None and _same(o, got):
+                return [o]  # the observed outcome is an accepted one: no need for the other readings
+            if not any(_same(o, p) for p in outs):
+                outs.append(o)
     return outs
 
 
@@ -153,13 +162,28 @@ def assoc_claimed(specs):
     return all(M.related(a, b) for cs in seen.values() for a in cs for b in cs)
 
 
+_EXP = {}
+
+
+def _expected_canon(spec):
+    """canon(plain(spec)), memoised per spec object (the object is kept, so its id stays unique)."""
+    hit = _EXP.get(id(spec))
+    if hit is not None and hit[0] is spec:
+        return hit[1]
+    if len(_EXP) > 20000:
+        _EXP.clear()
+    c = M.canon(M.plain(spec))
+    _EXP[id(spec)] = (spec, c)
+    return c
+
+
 def _operands(F, cid, specs, modes):
     """Fresh operands + their snapshots; construction findings."""
     ops, snaps, finds = [], [], []
     for i, (s, m) in enumerate(zip(specs, modes)):
         o = M.build(F, cid, m, s)
         sn = M.snapshot(o)
-        exp = M.canon(M.plain(s))
+        exp = _expected_canon(s)
         if sn[0] != exp:
             if m in ("kw", "parse_obj", "parse_json", "parse_yaml"):
                 # plain pydantic parsing does not give back what was put in: the corpus is wrong
@@ -210,7 +234,7 @@ def check_pair(F, cid, sx, sy, mx, my, ow, stats=None):
     got = _outcome(lambda: merge2(P, X, Y, ow))
     got_n = _outcome(lambda: P.merge(X, Y, allow_overwrite=ow))
     out += _mutations(cid, (X, Y), snaps, modes)
-    acc = ref_accepted((sx, sy), ow)
+    acc = ref_accepted((sx, sy), ow, got)
     law = "left-identity" if not sx else "right-identity" if not sy else "result-equals-reference"
     j = _judge(cid, specs, acc, got)
     if j:
@@ -252,8 +276,8 @@ def check_triple(F, cid, sx, sy, sz, mx, my, mz, ow, stats=None):
     o_r = _outcome(lambda: merge2(P, X, o_yz[2], ow)) if o_yz[0] == "ok" else o_yz
     o_n = _outcome(lambda: P.merge(X, Y, Z, allow_overwrite=ow))
     out += _mutations(cid, (X, Y, Z), snaps, modes)
-    acc_l = ref_accepted(((sx, sy), sz), ow)
-    acc_r = ref_accepted((sx, (sy, sz)), ow)
+    acc_l = ref_accepted(((sx, sy), sz), ow, o_l)
+    acc_r = ref_accepted((sx, (sy, sz)), ow, o_r)
     j = _judge(cid, specs, acc_l, o_l)
     if j:
         out.append(_finding("result-equals-reference", j, f"(x.y).z = {_show(o_l)}; documented: {_show_acc(acc_l)}"))
@@ -261,10 +285,12 @@ def check_triple(F, cid, sx, sy, sz, mx, my, mz, ow, stats=None):
     if j:
         out.append(_finding("result-equals-reference", j, f"x.(y.z) = {_show(o_r)}; documented: {_show_acc(acc_r)}"))
     if assoc_claimed(specs):
-        if [a[:2] for a in acc_l] != [a[:2] for a in acc_r]:
-            raise RuntimeError(f"C14 harness: reference merge not associative on {specs} ow={ow}")
         d = _differ(cid, specs, o_l, o_r)
         if d:
+            # self-check: never blame the code for a law the reference itself does not obey
+            full_l, full_r = ref_accepted(((sx, sy), sz), ow), ref_accepted((sx, (sy, sz)), ow)
+            if {a[:2] for a in full_l} != {a[:2] for a in full_r}:
+                raise RuntimeError(f"C14 harness: reference merge not associative on {specs} ow={ow}")
             out.append(_finding("associativity", d, f"(x.y).z = {_show(o_l)} but x.(y.z) = {_show(o_r)}"))
     d = _differ(cid, specs, o_l, o_n)
     if d:
